@@ -1364,3 +1364,39 @@ func ruleS16l(c *Ctx) {
 	}
 	c.check(n >= 2, "S16l", "handleLGDT|forms found", c.L.Pos(f.Pos()), fmt.Sprintf("%d", n))
 }
+
+// ---------------------------------------------------------------------------------------
+// Z18: no value of an immediate is a marker
+// ---------------------------------------------------------------------------------------
+
+func ruleZ18(c *Ctx) {
+	c.doc("Z18", "the fits-in-N-bits predicates of ng_operand compare the immediate's value with range bounds only (<, <=, >, >=): an equality test of the value with a constant makes one value of the immediate a marker for `no immediate` — a literal 0 then `does not fit in 8 bits` and CMP BX,0 gets the 16-bit form")
+	n := 0
+	for _, f := range c.L.RepoFuncs() {
+		if pkgRel(f) != "pkg/ng_operand" || !strings.HasPrefix(f.Name(), "ImmediateValueFits") {
+			continue
+		}
+		for _, g := range unitOf(f, 2) {
+			for _, b := range g.Blocks {
+				for _, in := range b.Instrs {
+					bo, ok := in.(*ssa.BinOp)
+					if !ok || (bo.Op != token.EQL && bo.Op != token.NEQ) {
+						continue
+					}
+					for _, pair := range [][2]ssa.Value{{bo.X, bo.Y}, {bo.Y, bo.X}} {
+						k, isK := pair[1].(*ssa.Const)
+						if !isK || !isIntConst(k) {
+							continue
+						}
+						if !dependsOnFieldLoadDeep(pair[0], "Immediate") || !isIntType(pair[0].Type()) {
+							continue
+						}
+						n++
+						c.fail("Z18", fmt.Sprintf("%s|immediate compared for equality with %d#%d", shortName(g), k.Int64(), n), c.L.Pos(instrPos(in)), fmt.Sprintf("the immediate's value is tested for (in)equality with %d: that value of the immediate is treated differently from its neighbours (a marker), although every value is a legal immediate", k.Int64()))
+					}
+				}
+			}
+		}
+	}
+	c.ok("Z18", "fits predicates|no marker value", "", fmt.Sprintf("%d equality tests on an immediate", n))
+}
